@@ -337,8 +337,11 @@ class WingSegment:
                         p0 = self._get_quarter_chord_loc(s-0.005)
                         p1 = self._get_quarter_chord_loc(s+0.005)
 
-                    # Calculate dihedral
-                    dihedral[i] = np.arctan((p1[2]-p0[2])/(p1[1]-p0[1]))
+                    # Calculate dihedral (the quarter-chord runs along -[cos, sin] on the left and +[cos, sin] on the right)
+                    if self.side == "left":
+                        dihedral[i] = np.arctan2(-(p1[2]-p0[2]), -(p1[1]-p0[1]))
+                    else:
+                        dihedral[i] = np.arctan2(p1[2]-p0[2], p1[1]-p0[1])
 
                 # Convert back to float if needed
                 if converted:
